@@ -317,6 +317,10 @@ int main(int argc, char** argv) {
                 std::cout << seed << " OK";
                 for (auto s : result_copy) std::cout << " " << s.id;
                 std::cout << "\n";
+            } else if (result_copy.size() != 0) {
+                // resolvo.h: "If the solve was unsuccesfull an error describing the reason is returned
+                // and the result vector will be empty."
+                std::cout << seed << " STALE result vector holds " << result_copy.size() << " solvables after a failed solve\n";
             } else {
                 std::string o;
                 for (char c : e) {
